@@ -497,6 +497,7 @@ func init() {
 			probe("posix-digit-unicode", `[[:digit:]]`, "\u0663"),
 			probe("fold-negated-perl-class", `(?i)\W`, "k"),
 			probe("ufffd-literal-vs-invalid-byte", `\x{FFFD}`, "\xff"),
+			probe("first-char-set-negated-flip", `\D|.z`, "xy"),
 			probe("ungreedy-flag-U", `(?U)a+`, "aaa"),
 			probe("quote-QE", `\Qa.b\E+`, "a.bbb"),
 			probe("class-subtraction-syntax", `[a-z-[aeiou]]+`, "ab-]"),
